@@ -396,20 +396,22 @@ Fixpoint kinds_eqb (a b : list fkind) : bool :=
   end.
 
 (* RFC 1035 §3.3, §3.4, RFC 3596 §2.2, RFC 2782: the RDATA fields of the types with a presentation
-   format of their own; None = only the RFC 3597 form is available.  TXT (16) is one or more strings *)
+   format of their own; TXT is one or more strings; every other type (and WKS, see docs/C23.md) has
+   only the RFC 3597 form *)
 Definition name_types : list N := [2; 3; 4; 5; 7; 8; 9; 12].                 (* NS MD MF CNAME MB MG MR PTR *)
-Definition shape (class type : N) : option (list fkind) :=
-  if existsb (N.eqb type) name_types then Some [KName]
-  else if (type =? 1) && (class =? 1) then Some [KIp4]
-  else if (type =? 1) && (class =? 3) then Some [KName; KOct]
-  else if type =? 6 then Some [KName; KName; KU32; KU32; KU32; KU32; KU32]
-  else if type =? 13 then Some [KStr; KStr]
-  else if type =? 14 then Some [KName; KName]
-  else if type =? 15 then Some [KU16; KName]
-  else if (type =? 28) && (class =? 1) then Some [KIp6]
-  else if (type =? 33) && (class =? 1) then Some [KU16; KU16; KU16; KName]
-  else None.
-Definition is_txt (type : N) : bool := type =? 16.
+Inductive rform := FFixed (ks : list fkind) | FTxt | FNone.
+Definition rform_of (class type : N) : rform :=
+  if existsb (N.eqb type) name_types then FFixed [KName]
+  else if (type =? 1) && (class =? 1) then FFixed [KIp4]
+  else if (type =? 1) && (class =? 3) then FFixed [KName; KOct]
+  else if type =? 6 then FFixed [KName; KName; KU32; KU32; KU32; KU32; KU32]
+  else if type =? 13 then FFixed [KStr; KStr]
+  else if type =? 14 then FFixed [KName; KName]
+  else if type =? 15 then FFixed [KU16; KName]
+  else if type =? 16 then FTxt
+  else if (type =? 28) && (class =? 1) then FFixed [KIp6]
+  else if (type =? 33) && (class =? 1) then FFixed [KU16; KU16; KU16; KName]
+  else FNone.
 Definition is_wks (class type : N) : bool := (type =? 11) && (class =? 1).
 
 Inductive ardata :=
@@ -422,19 +424,30 @@ Definition rdata_wire (d : ardata) : bytes :=
   | AGeneric data => data
   end.
 
+(* the value of a field is in range *)
+Definition value_ok (f : fval) : bool :=
+  match f with
+  | VName ls => good_labels_b ls
+  | VU16 n | VOct n => n <=? 65535
+  | VU32 n => n <=? 4294967295
+  | VIp4 a b c d => ip4_ok a b c d
+  | VIp6 gs => (length gs =? 8)%nat && forallb (fun g => g <? 65536) gs
+  | VStr s => (length s <=? 255)%nat && forallb (fun c => c <? 256) s
+  end.
+
 Definition fields_fit (class type : N) (fs : list fval) : bool :=
-  if is_txt type then negb (kinds_eqb (map kind_of fs) []) && forallb (fun f => fkind_eqb (kind_of f) KStr) fs
-  else match shape class type with
-       | Some ks => kinds_eqb (map kind_of fs) ks
-       | None => false
-       end.
+  forallb value_ok fs &&
+  match rform_of class type with
+  | FFixed ks => kinds_eqb (map kind_of fs) ks
+  | FTxt => negb (kinds_eqb (map kind_of fs) []) && forallb (fun f => fkind_eqb (kind_of f) KStr) fs
+  | FNone => false
+  end.
 
 Definition rdata_fits (class type : N) (d : ardata) : bool :=
   match d with
   | AFields fs => fields_fit class type fs
   | AGeneric _ =>
-    negb (is_txt type) && negb (is_wks class type) &&
-    match shape class type with None => true | Some _ => false end
+    negb (is_wks class type) && match rform_of class type with FNone => true | _ => false end
   end.
 
 (* presentation of the RDATA: the type's own fields, each preceded by a separator, or RFC 3597 §5
